@@ -150,6 +150,12 @@ struct Conc : Prop {
 						op = pc::ll_op(r, *f, b.present ? b.addr : std::vector<uint8_t>{});
 					}
 					else op = api::hl_op(r, ids);
+					// (C10: the train whose state the torn-read oracle watches is driven by the bus generator alone - a low-level drive command of the
+					// application for the same decoder address would legitimately mix its own function groups into that state)
+					if (!is_c11 && !w.trains.empty() && op.gets("op") == "ll" && (op.gets("fn") == "cs_drive" || op.gets("fn") == "cs_bin_state" || op.gets("fn") == "cs_pom")) {
+						std::vector<uint8_t> a = unhex(op.gets("a"));
+						if (a.size() >= 2 && a[0] == w.trains[0].addrl && a[1] == w.trains[0].addrh) continue;
+					}
 					if (!is_c11) {
 						// C10 keeps to the documented contract: no NULL arguments
 						bool has_null = false; for (size_t q = 0; q < op["s"].size(); q++) if (op["s"][q].is_null()) has_null = true;
